@@ -79,6 +79,8 @@ class Impl:
         self.zombies: set[int] = set()
         self.funcs: dict[int, object] = {}
         self.node_sub: dict[int, int] = {}      # node id -> graph id held by its graph attribute
+        self._tids: dict[int, int] = {}         # tensor object -> handle
+        self._tkeep: list = []
         self.use_functions = use_functions
         self._ids: dict[int, tuple[str, int]] = {}
 
@@ -367,11 +369,15 @@ def _safe_graph(im, v):
         return 9998
 
 
-def _tensor_obs(t):
-    """What is reachable through Value.const_value: the tensor's own name, doc string, metadata, dtype, shape, bytes."""
+def _tensor_obs(im, t):
+    """What is reachable through Value.const_value: the tensor's identity (a handle in order of first observation, so that
+    two runs of the same history agree), name, doc string, metadata, dtype, shape, bytes."""
     if t is None:
         return None
-    return {"id": id(t), "name": t.name, "doc": t.doc_string, "meta": dict(t.metadata_props), "dtype": str(t.dtype),
+    if id(t) not in im._tids:  # noqa: SLF001
+        im._tids[id(t)] = len(im._tids)  # noqa: SLF001
+        im._tkeep.append(t)  # noqa: SLF001
+    return {"id": im._tids[id(t)], "name": t.name, "doc": t.doc_string, "meta": dict(t.metadata_props), "dtype": str(t.dtype),
             "shape": list(t.shape), "bytes": t.tobytes().hex()}
 
 
@@ -383,7 +389,7 @@ def observe(im: Impl) -> dict:
             "uses": [[im.h(u.node, "n"), u.idx] for u in v.uses()],
             "consumers": [im.h(n, "n") for n in v.consumers()],
             "in": bool(v.is_graph_input()), "out": bool(v.is_graph_output()), "init": bool(v.is_initializer()),
-            "graph": _safe_graph(im, v), "const": _tensor_obs(v.const_value),
+            "graph": _safe_graph(im, v), "const": _tensor_obs(im, v.const_value),
             "shape": None if v.shape is None else [str(d) for d in v.shape], "type": None if v.type is None else repr(v.type)})
     nodes = []
     for n in im.nodes:
@@ -642,7 +648,7 @@ def site_candidates(op: list, outcome: str) -> list[str]:
 
 # --------------------------------------------------------------------------- running a history
 
-def run_history(ops: list[list], use_functions: bool = False, stop_on_hit: bool = True) -> dict:
+def run_history(ops: list[list], use_functions: bool = False, stop_on_hit: bool = True, twin: bool = False) -> dict:
     """Execute ops on the implementation; after every op record outcome, observation hash and oracle verdicts.
 
     Returns {"steps": [{op, outcome, hash, c01, c06}], "final": obs}.  Execution stops after the first oracle
@@ -662,6 +668,19 @@ def run_history(ops: list[list], use_functions: bool = False, stop_on_hit: bool 
         steps.append({"op": op, "outcome": outcome, "hash": hash_flat(flat(ob)), "c01": c01, "c06": c06})
         if (c01 or c06) and stop_on_hit:
             break
+    if twin and len(steps) == len(ops) and not any(s["c01"] or s["c06"] for s in steps):
+        # "a rejected call can be ignored": deleting a call that raised (it allocates nothing) from the history must not
+        # change anything observed afterwards - this exposes hidden state a rejected call leaves behind (name-authority
+        # reservations, ref counters) through the names / flags produced later
+        for j, s in enumerate(steps):
+            if s["outcome"] == "ok" or s["op"][0] in ALLOC:
+                continue
+            other = run_history(ops[:j] + ops[j + 1:], use_functions, stop_on_hit=False)
+            if other["final"] != ob:
+                diff = oracle_c06(other["final"], ob)
+                steps[-1]["c06"].append(f"C06-twin: the history without the rejected call #{j} {s['op'][0]} ends differently: "
+                                        + "; ".join(diff[:2]))
+                break
     return {"steps": steps, "final": ob}
 
 
@@ -1398,11 +1417,11 @@ def gen_oracle_only(rng, length: int) -> list[dict]:
 ALLOC = {"NewValue", "NewNode", "GraphNew", "NResizeOutputs"}
 
 
-def shrink_history(ops: list[list], which: str) -> list[list]:
+def shrink_history(ops: list[list], which: str, twin: bool = False) -> list[list]:
     """Greedy removal of non-allocating ops while the last remaining op still fails oracle `which`."""
     def fails(cand):
         try:
-            st = run_history(cand)["steps"]
+            st = run_history(cand, twin=twin)["steps"]
         except Exception:  # noqa: BLE001
             return False
         return bool(st) and len(st) == len(cand) and bool(st[-1][which])
@@ -1465,6 +1484,7 @@ def run_check(ck, which: str) -> None:  # noqa: C901, PLR0912, PLR0915
                                          "graphs; rename_values / replace_all_uses_with spanning >= 2 graphs with the invalid "
                                          "element in a later graph")
     ck.coverage["ops_oracle_only"] = ["IOSetSlice/IODelSlice with step or negative bounds", "IOSort", "VSetName to a non-str / unencodable name", "Value.merge_shapes", "InitIOr written on the attribute", "Node(...) rejected for its attributes",
+                                      "GRegisterInitializer (with the twin comparison: deleting a rejected call changes nothing later)",
                                       "GRegisterInitializer", "ConvReplaceAllUses", "ConvRenameValues",
                                       "ConvReplaceNodesAndValues"]
     ck.prove()
@@ -1568,8 +1588,9 @@ def run_check(ck, which: str) -> None:  # noqa: C901, PLR0912, PLR0915
         if sig in reported:
             return
         reported.add(sig)
-        small = shrink_history(ops[:idx + 1], which)
-        fin = run_history(small)["steps"]
+        tw = any(f.startswith("C06-twin") for f in fails)
+        small = shrink_history(ops[:idx + 1], which, twin=tw)
+        fin = run_history(small, twin=tw)["steps"]
         ck.violation({"kind": "oracle_" + which, "ops": small, "failing_op": small[-1],
                       "outcome": fin[-1]["outcome"] if fin else None,
                       "failures": (fin[-1][which] if fin else fails)[:6], "broken": ck.broken_items[:2]})
@@ -1595,10 +1616,10 @@ def run_check(ck, which: str) -> None:  # noqa: C901, PLR0912, PLR0915
         if i < 0:
             ops = corpus_oracle_only[i]
         gen = (gen_slices, gen_multi_rename, gen_refused_names, gen_multi_rau, gen_slices,
-               gen_slices, gen_multi_rename, gen_refused_names, gen_merge_shapes, gen_bad_node)[i % 10]
+               gen_register_rejected, gen_multi_rename, gen_refused_names, gen_merge_shapes, gen_bad_node)[i % 10]
         if i >= 0:
             ops = gen(rng)
-        st = run_history(ops)["steps"]
+        st = run_history(ops, twin=(gen is gen_register_rejected or i < 0))["steps"]
         ck.count(len(st))
         if len(st) == len(ops):
             last = st[-1]
@@ -1646,7 +1667,7 @@ def replay_file(rp: dict, which: str) -> int:
         print("replay names a broken obligation/correspondence, no concrete history:",
               json.dumps(rp.get("broken"), indent=1)[:3000])
         return 1
-    st = run_history(ops, stop_on_hit=False)["steps"]
+    st = run_history(ops, stop_on_hit=False, twin=True)["steps"]
     bad = [(i, s["op"], s["outcome"], s[which]) for i, s in enumerate(st) if s[which]]
     print(json.dumps({"ops": ops, "failures": bad[:5]}, indent=1, default=str))
     return 1 if bad else 0
@@ -2046,6 +2067,44 @@ def gen_refused_names(rng) -> list[list]:
         else:
             b.ops.append(["VSetName", v, rng.choice(["u5", "u6", "u1", None])])
     b.ops.append(["InitPop", g, "u0"] if rng.random() < 0.3 else ["X_VSetNameRaw", rng.choice(vals[:2]), rng.choice(REFUSED_NAMES)])
+    return b.ops
+
+
+def gen_register_rejected(rng) -> list[list]:
+    """Graph.register_initializer with values named like generated names (val_<k>): accepted calls and calls rejected
+    for every reason (owned by another graph, produced by a node, no tensor, name taken, unnamed), followed by nodes
+    with unnamed outputs added to the same graph, whose generated names must not depend on the rejected calls."""
+    b = _B()
+    T = {"tensor": True}
+
+    def val(name, tensor=True):
+        b.ops.append(["NewValue", b.nv, name] + ([T] if tensor else []))
+        b.nv += 1
+        return b.nv - 1
+
+    x = val("u0", False)
+    g0 = b.graph([x], [], [], [])
+    g1 = b.graph([], [], [], [])
+    cands = []
+    for k in rng.sample(range(0, 5), 3):
+        kind = rng.choice(["foreign", "produced", "no-tensor", "ok", "ok"])
+        if kind == "produced":
+            n, (o,) = b.node([x])
+            b.ops.append(["VSetName", o, f"val_{k}"])
+            cands.append(o)
+        else:
+            v = val(f"val_{k}", tensor=(kind != "no-tensor"))
+            if kind == "foreign":
+                b.ops.append(["IOAppend", rng.choice(["KIn", "KOut"]), g1, v, {}])
+            cands.append(v)
+    for v in cands:
+        b.ops.append(["X_RegisterInitializer", g0, v])
+    for _ in range(rng.randrange(2, 4)):                      # unnamed outputs named by g0's name authority
+        cnt = rng.choice([1, 2])
+        outs = list(range(b.nv, b.nv + cnt))
+        b.ops.append(["NewNode", b.nn, [x], ["OFresh", outs], g0, None, {}])
+        b.nv += cnt
+        b.nn += 1
     return b.ops
 
 
